@@ -95,6 +95,8 @@ impl<'a> Ctx<'a> {
                 id("n"),
                 id("s"),
                 id("flag"),
+                // a data field that is named like a member of Object.prototype
+                id("toString"),
                 member(id("list"), "length"),
                 member(id("l2"), "length"),
                 index(id("obj"), id("s")),
@@ -837,10 +839,17 @@ impl<'a> Ctx<'a> {
                 let mut children = vec![];
                 let n = self.r.range(1, 3);
                 for _ in 0..n {
-                    let slot = match self.r.below(4) {
+                    let slot = match self.r.below(5) {
                         0 => AttrVal::Static("a".into()),
                         1 => AttrVal::Static("b".into()),
                         2 => AttrVal::Bind(id("s")),
+                        // (forms that hoist a temporary)
+                        3 => AttrVal::Bind(match self.r.below(3) {
+                            0 => Expr::Cond(Box::new(id("flag")), Box::new(Expr::Str("a".into())), Box::new(Expr::Str("b".into()))),
+                            1 => Expr::Cond(Box::new(id("a")), Box::new(id("s")), Box::new(Expr::Str("a".into()))),
+                            // (never undefined: the runtime reads an undefined slot as "leave it")
+                            _ => Expr::Cond(Box::new(bin("%", id("n"), Expr::Num("2".into()))), Box::new(Expr::Str("a".into())), Box::new(Expr::Str("b".into()))),
+                        }),
                         _ => AttrVal::None,
                     };
                     let mut a = vec![];
@@ -1000,7 +1009,7 @@ impl ValGen {
 fn gen_data(r: &mut Rng, vg: &mut ValGen) -> Value {
     json!({
         "a": vg.scalar(r), "b": vg.scalar(r), "c": vg.scalar(r), "d": vg.scalar(r),
-        "n": r.below(4), "s": vg.name(r), "flag": r.chance(0.5),
+        "n": r.below(4), "s": vg.name(r), "flag": r.chance(0.5), "toString": vg.scalar(r),
         "obj": vg.obj(r), "o2": {"p": vg.scalar(r), "q": vg.scalar(r)},
         "list": vg.records(r, 4), "l2": vg.scalars(r, 4),
         "ll": (0..r.below(4)).map(|_| vg.scalars(r, 3)).collect::<Vec<_>>(),
@@ -1023,6 +1032,7 @@ fn gen_op(r: &mut Rng, vg: &mut ValGen, f: &Features, safe_splice: bool, prop: P
     };
     let k = r.weighted(&weights);
     let op = match k {
+        0 if r.chance(0.12) => json!(["set", ["toString"], vg.scalar(r)]),
         0 => json!(["set", [*r.pick(ROOT_SCALARS)], vg.scalar(r)]),
         1 => json!(["set", ["obj", *r.pick(&["x", "k"])], vg.scalar(r)]),
         2 => json!(["set", ["obj", "y", "z"], vg.scalar(r)]),
